@@ -193,9 +193,9 @@ func runSort(r *engine.Run) {
 			return
 		}
 		src := fmt.Sprintf("o = %s; %s __log = []; __calls = 0; __done = false; __ret = undefined; __ret = __c(%s); __done = true; 0", arrayLiteral(before), setup, call)
-		r.Begin(key)
+		objdrv.Begin(r, key)
 		obs := observe(im, src, "")
-		r.End()
+		objdrv.End()
 		verdict := judge(obs[0], obs[1], obs[2], obs[3])
 		if obs[4] != "ok" && obs[4] != "n/a" {
 			verdict = "length invariant: " + obs[4]
